@@ -223,7 +223,9 @@ def validate_trace(trace_module, trace_file, cfg=None, timeout=3600, heap="4g", 
 
 
 def validate_shards(trace_module, files, cfg=None, timeout=3600, heap="3g", jobs=None, env=None):
-    jobs = jobs or min(NCPU, max(1, len(files)))
+    # the heaps of concurrently running validators must fit the machine: at most 48 GB of -Xmx in flight
+    gb = max(1, int(heap[:-1])) if heap[-1] in "gG" else 1
+    jobs = jobs or min(NCPU, max(1, len(files)), max(1, 48 // gb))
     with cf.ThreadPoolExecutor(max_workers=jobs) as ex:
         return list(ex.map(lambda f: validate_trace(trace_module, f, cfg, timeout, heap, env), files))
 
